@@ -93,6 +93,7 @@ impl<I: Interner> Forest<I> {
             forest: self,
             context,
             stack,
+            in_flight: None,
         };
 
         match state.ensure_root_answer(table, answer_index) {
@@ -457,10 +458,29 @@ pub(crate) struct SolveState<'forest, I: Interner> {
     forest: &'forest mut Forest<I>,
     context: &'forest SlgContextOps<'forest, I>,
     stack: Stack<I>,
+    /// A copy of the strand that the current step of `ensure_root_answer`
+    /// took out of its table (or off the stack), with the table it belongs
+    /// to. If a panic (e.g. in a database callback) unwinds through that
+    /// step, `Drop` puts the strand back so that the table does not
+    /// silently lose the answers the strand would still produce.
+    in_flight: Option<(TableIndex, CanonicalStrand<I>)>,
 }
 
 impl<'forest, I: Interner> Drop for SolveState<'forest, I> {
     fn drop(&mut self) {
+        if std::thread::panicking() {
+            if let Some((table, strand)) = self.in_flight.take() {
+                // Unless the interrupted step already handed the strand on
+                // to the stack entry of its table, return it to the table.
+                let handed_on = match self.stack.is_active(table) {
+                    Some(index) => self.stack[index].active_strand.is_some(),
+                    None => false,
+                };
+                if !handed_on {
+                    self.forest.tables[table].requeue_strand(strand);
+                }
+            }
+        }
         if !self.stack.is_empty() {
             #[cfg(chalk_verif)]
             crate::verif::note_unwind(
@@ -538,6 +558,7 @@ impl<'forest, I: Interner> SolveState<'forest, I> {
             match next_strand {
                 Some(mut canonical_strand) => {
                     debug!("starting next strand = {:#?}", canonical_strand);
+                    self.in_flight = Some((table, canonical_strand.clone()));
 
                     canonical_strand.value.last_pursued_time = clock;
                     match self.select_subgoal(&mut canonical_strand) {
